@@ -6,6 +6,7 @@ import DaskModel.Model.Masked
 import DaskModel.Model.RandomKeys
 import DaskModel.Model.Contraction
 import DaskModel.Model.ArrayExpr
+import DaskModel.Model.Moment
 open Dask
 
 namespace ReduceDriver
@@ -241,6 +242,40 @@ def hMaInside : Handler := handler fun args =>
     pure (ofMs (f (← v1.toInt?) (← v2.toInt?) (← toMs? xs)))
   | _ => none
 
+/-! ### C22: var / std (moment_chunk / moment_combine / moment_agg at order 2, exact rationals) -/
+def ofP (p : Dask.Moment.P) : SExp := .list [.int p.n, ofRat p.total, ofRat p.m2]
+def toP? : SExp → Option Dask.Moment.P
+  | .list [n, t, m] => do pure ⟨← n.toNat?, ← toRat? t, ← toRat? m⟩
+  | _ => none
+def toPs? (e : SExp) : Option (List Dask.Moment.P) := do (← e.toList?).mapM toP?
+
+/-- `(momchunk (x…))`, `(momcombine ((n total m2)…))`, `(momagg ddof ((n total m2)…))`,
+    `(vartree ddof k depth ((x…)…))` -/
+def hMomChunk : Handler := handler fun args =>
+  match args with
+  | [xs] => do pure (ofP (Dask.Moment.momChunk (← toRats? xs)))
+  | _ => none
+def hMomCombine : Handler := handler fun args =>
+  match args with
+  | [ps] => do pure (ofP (Dask.Moment.momCombine (← toPs? ps)))
+  | _ => none
+def ofOptRat : Option Rat → SExp
+  | none => .sym "none"
+  | some r => ofRat r
+def hMomAgg : Handler := handler fun args =>
+  match args with
+  | [d, ps] => do pure (ofOptRat (Dask.Moment.momAgg (← d.toNat?) (← toPs? ps)))
+  | _ => none
+def hVarTree : Handler := handler fun args =>
+  match args with
+  | [ddof, k, d, blocks] => do
+    let blocks ← (← blocks.toList?).mapM toRats?
+    match (Dask.Moment.redVar (← ddof.toNat?)).run1 (← k.toNat?) (← d.toNat?) blocks with
+    | some [v] => pure (.list [.sym "ok", ofOptRat v])
+    | some vs => pure (.list [.sym "shape", .int vs.length])
+    | none => pure (.list [.sym "raised"])
+  | _ => none
+
 /-! ### C28 -/
 open Dask.RandomKeys in
 /-- `(rngcalls (spawnKey…) nChildren (nblocks…))` ↦ `((((key…)…)…) nChildren')` -/
@@ -395,6 +430,8 @@ def table : List (String × Handler) := [
   ("seqscan", ReduceDriver.hSeqScan), ("blelloch", ReduceDriver.hBlelloch),
   ("blsched", ReduceDriver.hBlSched), ("schedok", ReduceDriver.hSchedOk),
   ("mergepct", ReduceDriver.hMergePct),
+  ("momchunk", ReduceDriver.hMomChunk), ("momcombine", ReduceDriver.hMomCombine), ("momagg", ReduceDriver.hMomAgg),
+  ("vartree", ReduceDriver.hVarTree),
   ("mareduce", ReduceDriver.hMaReduce), ("mazip", ReduceDriver.hMaZip), ("mascan", ReduceDriver.hMaScan),
   ("mafilled", ReduceDriver.hMaFilled), ("mawhere", ReduceDriver.hMaWhere), ("mainside", ReduceDriver.hMaInside),
   ("rngcalls", ReduceDriver.hRngCalls), ("rscalls", ReduceDriver.hRsCalls), ("choiceguard", ReduceDriver.hChoiceGuard),
